@@ -370,6 +370,10 @@ def install_linalg_hooks(ctx):
                     ok = False
         c.check(ok, 'helper/linspace', 'linspace(%r,%r,%r) = %r is not the evenly spaced sequence' % (start, stop, num, res),
                 what='helper')
+        if ok:
+            # the sequence spans the interval: its end points are the interval's end points themselves
+            c.check(res[0] == start and res[-1] == stop, 'helper/linspace-endpoints', 'linspace(%r,%r,%r) starts at %r and ends at %r'
+                    % (start, stop, num, res[0], res[-1]), what='helper')
         return True
 
     W = hooks.wrap_function
